@@ -25,6 +25,7 @@ CONSTANTS Roles,        \* function PID -> "pat" | "pmt" | "si" | "es"
           Faults,       \* subset of {"dup", "drop", "null", "afonly", "tei"}
           MaxFaults,
           CC0,          \* first continuity counter of every PID (14: the run crosses the 15 -> 0 wrap)
+          EarlyPMT,     \* BOOLEAN: PMT PIDs may start before their PAT is complete (joining mid-stream); such units are optional
           StartLike,    \* BOOLEAN: offer continuation chunks that begin with 00 00 01
           Dev
 VARIABLES cur, gcc, nunits, uid, units, lastpkt, patDone, npk, nfault, dropRun, hist,   \* generator + channel
@@ -181,16 +182,16 @@ Emit(us, pid, u, t, off, n, pusi, sl, f) ==
 
 Start(pid) ==
   /\ npk < MaxPkts /\ cur[pid] = None /\ nunits[pid] < MaxUnits
-  /\ (Roles[pid] = "pmt" => patDone)
+  /\ (Roles[pid] = "pmt" => (patDone \/ EarlyPMT))
   /\ \E t \in Templates[Roles[pid]] : \E n \in Sizes(Total(t)) : \E f \in FaultChoices(pid) :
        /\ ChunkOK(pid, t, 0, n)
        /\ uid' = uid + 1
-       /\ units' = Append(units, [id |-> uid + 1, pid |-> pid, tmpl |-> t])
+       /\ units' = Append(units, [id |-> uid + 1, pid |-> pid, tmpl |-> t, early |-> (Roles[pid] = "pmt" /\ ~patDone)])
        /\ nunits' = [nunits EXCEPT ![pid] = @ + 1]
        /\ LET prevu == IF \E i \in DOMAIN units : units[i].pid = pid
                        THEN (CHOOSE i \in DOMAIN units : units[i].pid = pid /\ \A j \in DOMAIN units : units[j].pid = pid => j <= i) ELSE 0
           IN Touch(f, uid + 1, prevu)
-       /\ Emit(Append(units, [id |-> uid + 1, pid |-> pid, tmpl |-> t]), pid, uid + 1, t, 0, n, TRUE, FALSE, f)
+       /\ Emit(Append(units, [id |-> uid + 1, pid |-> pid, tmpl |-> t, early |-> (Roles[pid] = "pmt" /\ ~patDone)]), pid, uid + 1, t, 0, n, TRUE, FALSE, f)
 
 Cont(pid) ==
   /\ npk < MaxPkts /\ cur[pid] # None
@@ -223,7 +224,7 @@ RECURSIVE ItemsOf(_, _)
 ItemsOf(pid, i) ==
   IF i > Len(units) THEN <<>>
   ELSE LET un == units[i] t == un.tmpl
-           mine == IF un.pid # pid THEN <<>>
+           mine == IF un.pid # pid \/ un.early THEN <<>>
                    ELSE IF t.t = "pes" THEN << <<"pes", un.id, 0, t.total - t.hl>> >>
                    ELSE LET js == SelectSeq([j \in 1..Len(t.secs) |-> j], LAMBDA j : KindOf(t.secs[j].tid) # "none" /\ t.secs[j].crcok)
                         IN [x \in DOMAIN js |-> <<KindOf(t.secs[js[x]].tid), un.id, js[x], 0>>]
@@ -232,9 +233,10 @@ FinalF == delivered \o Drain(acc, pm, nread + 1)
 FinalC == deliveredC \o Drain(accC, pmC, nreadC + 1)
 
 \* C02: at every quiescent point the clean demuxer has delivered / will drain exactly the carried units, per PID in order
-C02_Carried == (Quiescent /\ nfault = 0) => \A pid \in PIDs : Ids(PerPid(FinalC, pid)) = ItemsOf(pid, 1)
+NotEarly(s) == SelectSeq(s, LAMBDA x : ~units[x.u].early)
+C02_Carried == (Quiescent /\ nfault = 0) => \A pid \in PIDs : Ids(NotEarly(PerPid(FinalC, pid))) = ItemsOf(pid, 1)
 \* C02: a PAT/PMT is delivered by the call that reads its final packet
-C02_NoReadAhead == \A i \in DOMAIN deliveredC : deliveredC[i].k \in {"pat", "pmt"} => deliveredC[i].at = lastpkt[deliveredC[i].u]
+C02_NoReadAhead == \A i \in DOMAIN deliveredC : (deliveredC[i].k \in {"pat", "pmt"} /\ ~units[deliveredC[i].u].early) => deliveredC[i].at = lastpkt[deliveredC[i].u]
 \* C06: duplicates never remove or alter; on PES PIDs the output is identical
 OnlyDups == \A i \in DOMAIN hist : "f" \in DOMAIN hist[i] => hist[i].f = "dup"
 RECURSIVE IsSubseq(_, _)
@@ -252,6 +254,6 @@ C06_LossSafe == (Quiescent /\ LossDomain) => \A pid \in PIDs :
 \* C07: a PID's deliveries depend on its own packets only - per construction of Feed (one accumulator per PID); the program map
 \* is the only shared state, hence the side condition "PAT before PMT" in Start.
 
-View == <<cur, gcc, nunits, patDone, npk, nfault, dropRun, acc, pm, accC, pmC, hit, [i \in DOMAIN units |-> <<units[i].pid, units[i].tmpl>>]>>
+View == <<cur, gcc, nunits, patDone, npk, nfault, dropRun, acc, pm, accC, pmC, hit, [i \in DOMAIN units |-> <<units[i].pid, units[i].tmpl, units[i].early>>]>>
 ExportEdge == PrintT("SCN " \o ToJson([units |-> units', pkts |-> hist', pmtpids |-> {p \in PIDs : Roles[p] = "pmt"}]))
 =============================================================================
